@@ -165,13 +165,12 @@ Definition float_text (text : list N) : bool :=
 Definition is_ctup (t : cval) : bool := match t with CTup _ => true | _ => false end.
 Definition is_carr (t : cval) : bool := match t with CArr _ => true | _ => false end.
 
-(* scalars: every one is fine at top level; [nested] excludes what the code prints differently inside
-   arrays/tuples (see LiteralProof: nested_neg_refuted) *)
-Definition scalar_ok (nested : bool) (t : cval) : bool :=
+(* scalars.  Binary literals are restricted to < 2^64 (the code prints larger ones as strings, LiteralProof:
+   bin_big_refuted); negated integers of every size are fine at every depth *)
+Definition scalar_ok (t : cval) : bool :=
   match t with
-  | CNat _ | CHex _ => true
+  | CNat _ | CHex _ | CNeg _ => true
   | CBin n => n <? p64
-  | CNeg n => negb nested || (n <=? p63) || (p64 <=? n)
   | CFlt _ text => float_text text
   | CStr v => bytes_okb v
   | _ => false
@@ -180,12 +179,12 @@ Definition scalar_ok (nested : bool) (t : cval) : bool :=
 (* arrays: non-empty, elements scalars or arrays; tuples: at least two elements, scalars or tuples *)
 Fixpoint arr_ok (t : cval) : bool :=
   match t with
-  | CArr l => negb (Nat.eqb (length l) 0) && forallb (fun x => if is_carr x then arr_ok x else scalar_ok true x) l
+  | CArr l => negb (Nat.eqb (length l) 0) && forallb (fun x => if is_carr x then arr_ok x else scalar_ok x) l
   | _ => false
   end.
 Fixpoint tup_ok (t : cval) : bool :=
   match t with
-  | CTup l => Nat.leb 2 (length l) && forallb (fun x => if is_ctup x then tup_ok x else scalar_ok true x) l
+  | CTup l => Nat.leb 2 (length l) && forallb (fun x => if is_ctup x then tup_ok x else scalar_ok x) l
   | _ => false
   end.
 
@@ -193,7 +192,7 @@ Definition wfb (t : cval) : bool :=
   match t with
   | CArr _ => arr_ok t
   | CTup _ => tup_ok t
-  | _ => scalar_ok false t
+  | _ => scalar_ok t
   end.
 
 End Oracle.
